@@ -102,12 +102,23 @@ PROG_NAMES = ["negative", "add", "chain", "greater", "astype_small", "where", "s
               "repeat_6", "repeat_8_ax1", "cumsum_ax1", "tile"]
 
 
+MANY_BLOCKS_ALONG = {"sum_negative": "tall", "mean_square": "tall", "max_abs": "wide", "sum_of_product": "wide", "vecdot": "wide",
+                     "sum_axis0": "tall", "var_axis0": "tall", "max_axis1": "wide", "mean_axis1": "wide", "argmax_axis0": "tall",
+                     "nanmean": "tall", "cumsum": "tall", "cumsum_ax1": "wide", "sum_all": "tall"}
+
+
 def draw_case(rng, tier, idx):
     mb = 2 if tier == "quick" else 8
     dtype = rng.choice(["float64", "float64", "float32", "int8"])
     isz = np.dtype(dtype).itemsize
     n = int((mb * 2**20 / isz) ** 0.5)
     geom = rng.choice(["square", "skinny", "uneven", "tall", "wide"])
+    prog = PROG_NAMES[idx % len(PROG_NAMES)]
+    optimize = rng.random() < 0.5
+    if prog in MANY_BLOCKS_ALONG and rng.random() < 0.6:
+        # reductions and scans combine several blocks per task only when there are many blocks along their axis
+        geom = MANY_BLOCKS_ALONG[prog]
+        optimize = rng.random() < 0.75
     if geom == "tall":
         # many blocks along axis 0: reductions combine split_every blocks per task
         n2 = max(8, n // 2)
@@ -126,8 +137,8 @@ def draw_case(rng, tier, idx):
     else:
         chunks = (n, n)
         shape = (2 * n + n // 3, n + n // 2)
-    return {"prog": PROG_NAMES[idx % len(PROG_NAMES)], "shape": list(shape), "chunks": list(chunks), "dtype": dtype, "geom": geom,
-            "optimize": rng.random() < 0.5, "compressor": rng.choice([None, None, "auto"]), "seed": rng.getrandbits(20)}
+    return {"prog": prog, "shape": list(shape), "chunks": list(chunks), "dtype": dtype, "geom": geom,
+            "optimize": optimize, "compressor": rng.choice([None, None, "auto"]), "seed": rng.getrandbits(20)}
 
 
 def make_inputs(case, wd, spec):
